@@ -48,6 +48,14 @@ def note(*a):
     return True
 
 
+def path_ok():
+    """vacuity marker: this path reached the end of the program normally (see Plan.require_ok_marker)"""
+    with NoTracing():
+        if "ok" not in _WITNESSES:
+            _WITNESSES.append("ok")
+    return True
+
+
 def force(x, depth=6):
     """Eager plain-list image of a Vyxal value (lists and LazyLists become lists)."""
     if isinstance(x, (list, LazyList, tuple)):
@@ -199,3 +207,43 @@ def stmts_of(program, dict_compress=True):
 
 def depth_tuple(ctx):
     return (len(ctx.context_values), len(ctx.inputs), len(ctx.stacks), len(ctx.function_stack))
+
+
+# ---- sympy runs OUTSIDE the tracer --------------------------------------------------------------
+# Measured: under CrossHair's tracer sympy.nsimplify raises "TypeError: __hash__ method should return an integer"
+# (Float keys in a dict display). The real sympy functions therefore run under NoTracing() on realised arguments:
+# nothing is stubbed, but a symbolic value that reaches sympy becomes concrete (one path per value).
+import types as _types
+
+
+class _SympyOutsideTracer:
+    def __init__(self, real):
+        object.__setattr__(self, "_real", real)
+
+    def __getattr__(self, name):
+        real = object.__getattribute__(self, "_real")
+        attr = getattr(real, name)
+        if isinstance(attr, _types.FunctionType):
+            def outside(*a, **k):
+                try:
+                    from crosshair.core import deep_realize
+
+                    a, k = deep_realize(a), deep_realize(k)
+                except Exception:  # noqa
+                    pass
+                with NoTracing():
+                    return attr(*a, **k)
+
+            outside.__name__ = name
+            return outside
+        if isinstance(attr, _types.ModuleType):
+            return _SympyOutsideTracer(attr)
+        return attr
+
+
+import sympy as _sympy
+
+for _m in (E, H, T, M, LLmod):
+    if "sympy" in _m.__dict__:
+        _m.__dict__["sympy"] = _SympyOutsideTracer(_sympy)
+BASE_NS["sympy"] = _SympyOutsideTracer(_sympy)
